@@ -257,7 +257,7 @@ def divergence(ctx, name, m, rng):
     elem = m.elem()
     if m.elem.refdom.brefdom is None:
         return
-    order = 6 if 'Hex' not in name else 4
+    order = 6
     try:
         vb = fe.Basis(m, elem, intorder=order)
         fb = fe.FacetBasis(m, elem, intorder=order)
@@ -326,7 +326,10 @@ def run(ctx, rng):
     STAT.clear()
     with warnings.catch_warnings():
         warnings.simplefilter('ignore')
-        for name, m in meshes(ctx, rng):
+        allm = []
+        for rep in range(ctx.n(3, 8)):
+            allm += meshes(ctx, rng)
+        for name, m in allm:
             ctx.hist('oracle_mesh', name)
             try:
                 mp = m.mapping()
